@@ -181,6 +181,36 @@ type PaginatedQueryOptions[T any] struct {
 	Options      T             `json:"options"`
 }
 
+// UnmarshalJSON reads the options back from a cursor token; the filter is an interface value and is
+// rebuilt from its JSON form.
+func (opts *PaginatedQueryOptions[T]) UnmarshalJSON(data []byte) error {
+	type aux struct {
+		QueryBuilder json.RawMessage `json:"qb"`
+		PageSize     uint64          `json:"pageSize"`
+		Options      T               `json:"options"`
+	}
+	x := aux{}
+	if err := json.Unmarshal(data, &x); err != nil {
+		return err
+	}
+
+	var qb query.Builder
+	if len(x.QueryBuilder) > 0 && string(x.QueryBuilder) != "null" {
+		var err error
+		qb, err = query.ParseJSON(string(x.QueryBuilder))
+		if err != nil {
+			return err
+		}
+	}
+
+	*opts = PaginatedQueryOptions[T]{
+		QueryBuilder: qb,
+		PageSize:     x.PageSize,
+		Options:      x.Options,
+	}
+	return nil
+}
+
 func (opts PaginatedQueryOptions[T]) WithQueryBuilder(qb query.Builder) PaginatedQueryOptions[T] {
 	opts.QueryBuilder = qb
 
